@@ -109,6 +109,77 @@ def run(ctx):
     # ---------------------------------------------------------------- FIXED
     C05.fixed_rule(ctx, prefix='C25-FIXED')
     C05.embedded_rule(ctx, prefix='C25-FIXED')
+    # ---------------------------------------------------------------- INDEXTWIN
+    # s[i]: Python counts from 0, SUBSTR from 1.  The shift is implemented twice in StringMixin.__getitem__ -- for a constant index in Python
+    # (`if value >= 0: value += 1`) and for a computed index in SQL (['IF', ['GE', i, 0], i + 1, ...]).  The two siblings must draw the line at
+    # the same place: the Python comparison and the SQL comparison node are the same relation with the same bound.
+    OPS = {ast.GtE: 'GE', ast.Gt: 'GT', ast.Lt: 'LT', ast.LtE: 'LE', ast.Eq: 'EQ', ast.NotEq: 'NE'}
+    gi = repo.fn('pony.orm.sqltranslation', 'StringMixin.__getitem__')
+    # Python side, read semantically: the local holding index.value; every place that adds 1 to it (`v += 1`, `v + 1`) with the conditions on its
+    # path (if / elif / else / conditional expression); the conditions that mention the value or the dialect are evaluated on sample indexes
+    from ..q import concrete_eval, Unknown
+    vnames = {t.id for st in walk_no_nested(gi.node) if isinstance(st, ast.Assign) and isinstance(st.value, ast.Attribute) and st.value.attr == 'value'
+              and dotted(st.value.value) == 'index' for t in st.targets if isinstance(t, ast.Name)}
+    shift_sites = []          # (path conditions [(test, polarity)], node)
+    def is_shift(x):
+        return (isinstance(x, ast.AugAssign) and isinstance(x.op, ast.Add) and isinstance(x.value, ast.Constant) and x.value.value == 1 and dotted(x.target) in vnames) or \
+               (isinstance(x, ast.BinOp) and isinstance(x.op, ast.Add) and isinstance(x.right, ast.Constant) and x.right.value == 1 and dotted(x.left) in vnames)
+    def walk_expr(e, conds):
+        if is_shift(e): shift_sites.append((list(conds), e))
+        if isinstance(e, ast.IfExp):
+            walk_expr(e.test, conds); walk_expr(e.body, conds + [(e.test, True)]); walk_expr(e.orelse, conds + [(e.test, False)]); return
+        for c in ast.iter_child_nodes(e):
+            if isinstance(c, (ast.expr, ast.keyword, ast.comprehension)): walk_expr(c, conds)
+    def walk_stmts(body, conds):
+        for st in body:
+            if isinstance(st, ast.If):
+                walk_expr(st.test, conds); walk_stmts(st.body, conds + [(st.test, True)]); walk_stmts(st.orelse, conds + [(st.test, False)])
+            elif isinstance(st, (ast.For, ast.While, ast.With, ast.Try)):
+                for fld in ('body', 'orelse', 'finalbody'): walk_stmts(getattr(st, fld, []) or [], conds)
+                for h in getattr(st, 'handlers', []): walk_stmts(h.body, conds)
+            elif isinstance(st, (ast.FunctionDef, ast.ClassDef)): pass
+            else:
+                if is_shift(st): shift_sites.append((list(conds), st))
+                for c in ast.iter_child_nodes(st):
+                    if isinstance(c, ast.expr): walk_expr(c, conds)
+    walk_stmts(gi.node.body, [])
+    def py_shifted(v):
+        res = False
+        for conds, node in shift_sites:
+            ok_ = True
+            for test, pol in conds:
+                names = {x.id for x in ast.walk(test) if isinstance(x, ast.Name)}
+                if not (names & (vnames | {'dialect'})): continue          # unrelated to the index value
+                env = {n_: v for n_ in vnames}; env['dialect'] = 'SQLite'
+                try: r = bool(concrete_eval(test, env))
+                except Unknown: r = pol
+                if r != pol: ok_ = False; break
+            res = res or ok_
+        return res
+    py_sites = shift_sites
+    sql_sites = []
+    defs_ = {}
+    for st in walk_no_nested(gi.node):
+        if isinstance(st, ast.Assign) and len(st.targets) == 1 and isinstance(st.targets[0], ast.Name): defs_.setdefault(st.targets[0].id, []).append(st.value)
+    def resolve_list(e):
+        if isinstance(e, ast.Name) and len(defs_.get(e.id, ())) == 1: return defs_[e.id][0]
+        return e
+    for st in walk_no_nested(gi.node):
+        for l in ([x for x in ast.walk(st) if isinstance(x, ast.List)] if isinstance(st, ast.Assign) else []):
+            if len(l.elts) == 4 and isinstance(l.elts[0], ast.Constant) and l.elts[0].value == 'IF':
+                cond, then = resolve_list(l.elts[1]), resolve_list(l.elts[2])
+                if isinstance(cond, ast.List) and len(cond.elts) == 3 and isinstance(cond.elts[0], ast.Constant) and isinstance(cond.elts[2], ast.List) \
+                        and len(cond.elts[2].elts) == 2 and isinstance(cond.elts[2].elts[1], ast.Constant) \
+                        and isinstance(then, ast.List) and then.elts and isinstance(then.elts[0], ast.Constant) and then.elts[0].value == 'ADD':
+                    sql_sites.append((cond.elts[0].value, cond.elts[2].elts[1].value, st))
+    ctx.need(py_sites and sql_sites, 'C25: the constant / computed index shift in StringMixin.__getitem__ was not found')
+    REL = {'GE': lambda a, b: a >= b, 'GT': lambda a, b: a > b, 'LT': lambda a, b: a < b, 'LE': lambda a, b: a <= b, 'EQ': lambda a, b: a == b, 'NE': lambda a, b: a != b}
+    for op_s, k_s, st in sql_sites:
+        diff = [v for v in (-3, -2, -1, 0, 1, 2, 3) if op_s in REL and REL[op_s](v, k_s) != py_shifted(v)]
+        ok = op_s in REL and not diff
+        ctx.ob('C25-INDEXTWIN.constant-and-computed-index-shift-at-the-same-bound', gi, st, ok,
+               '' if ok else 'a computed string index is shifted to SUBSTR\'s 1-based position when [%s, i, %r], a constant one under a different condition: they disagree for '
+               'index %s (s[i] with i evaluating to 0 must read the first character, not position 0 = empty string)' % (op_s, k_s, diff), node=st)
 
 
 def bodies(node):
@@ -123,6 +194,7 @@ def bodies(node):
 
 
 MUTANTS = [
+    dict(id='C25-twin', file='pony/orm/sqltranslation.py', fn='StringMixin.__getitem__', old="            index_sql = [ 'IF', [ 'GE', inner_sql, [ 'VALUE', 0 ] ], then, else_ ]", new="            index_sql = [ 'IF', [ 'GT', inner_sql, [ 'VALUE', 0 ] ], then, else_ ]", expect='C25-INDEXTWIN'),
     dict(id='C25-m1', file='pony/orm/sqltranslation.py', fn='StringMixin.__getitem__', old='            if stop is None: stop_value = -1', new='            if stop_value is None: stop_value = -1', expect='C25-DEFAULT'),
     dict(id='C25-m2', file='pony/orm/sqlbuilding.py', fn='SQLBuilder.STRING_SLICE', old='                elif start_value < 0 and stop_value >= 0:', new='                elif start_value < 0 and stop_value > 0:', expect='C25-TOTAL.sign'),
     dict(id='C25-m3', file='pony/orm/dbproviders/sqlite.py', fn='py_string_slice', old='    return s[start:end]', new='    return s[start:end] if end != -1 else s[start:]', expect='C25-SQLITE.python'),
